@@ -64,7 +64,10 @@ def judge(plan, outcome):
 
 
 def signature(v):
-    return {"clause": v["clause"]}
+    sig = {"clause": v["clause"]}
+    if v["detail"].get("kind"):
+        sig["kind"] = v["detail"]["kind"]
+    return sig
 
 
 def shrink(plan):
@@ -517,6 +520,12 @@ def run_case(case, seg, viol, stats, sample):
         sample.append({"structure": cn, "planted": planted, "score": s.score,
                        "refinement": [[a.major, a.minor, len(a.added), len(a.missing)] for a in s.solution]})
     tb0 = ev.profile.minor_add * ev.n_vnew() / 1e6 * 6 + TOL
+    # sites at which the model's reference-count bound (minor.py "6) Do the same for non-mutations") bites:
+    # no reference reads and at least two considered alternative alleles (see known findings)
+    crowded_sites = [p for p in ev.sites
+                     if ev.cov[ev.M(p, "_")] == 0 and sum(1 for m in ev.muts if m.pos == p) >= 2]
+    if crowded_sites:
+        detail0 = dict(detail0, kind="multiallelic-site-without-reference-reads", sites=crowded_sites[:3])
     # brute-force reference (tiny instances, phase off)
     if not case["phase"]:
         best, nenum = ev.brute()
